@@ -355,3 +355,172 @@ func (c *Ctx) FileOf(rel, suffix string) *ast.File {
 	}
 	return nil
 }
+
+// ---------------------------------------------------------------- rename-tolerant anchors
+
+// typeStr renders a type with package names as qualifiers.
+func typeStr(t types.Type, own *types.Package) string {
+	return types.TypeString(t, func(p *types.Package) string {
+		if p == own {
+			return ""
+		}
+		return p.Name()
+	})
+}
+
+// StructLike resolves a struct type by name; if it was renamed, by the unique
+// struct of the package that has fields of all the given types.
+func (c *Ctx) StructLike(rel, name string, fieldTypes ...string) *types.Named {
+	if n := c.Named(rel, name); n != nil {
+		if _, ok := n.Underlying().(*types.Struct); ok {
+			return n
+		}
+	}
+	p := c.Pkg(rel)
+	if p == nil || p.Types == nil || len(fieldTypes) == 0 {
+		return nil
+	}
+	var found *types.Named
+	sc := p.Types.Scope()
+	for _, nm := range sc.Names() {
+		tn, ok := sc.Lookup(nm).(*types.TypeName)
+		if !ok {
+			continue
+		}
+		n, ok := tn.Type().(*types.Named)
+		if !ok {
+			continue
+		}
+		st, ok := n.Underlying().(*types.Struct)
+		if !ok {
+			continue
+		}
+		have := map[string]int{}
+		for i := 0; i < st.NumFields(); i++ {
+			have[typeStr(st.Field(i).Type(), p.Types)]++
+		}
+		all := true
+		need := map[string]int{}
+		for _, ft := range fieldTypes {
+			need[ft]++
+		}
+		for ft, k := range need {
+			if have[ft] < k {
+				all = false
+			}
+		}
+		if all {
+			if found != nil {
+				return nil // ambiguous
+			}
+			found = n
+		}
+	}
+	return found
+}
+
+// FieldT resolves a field by name; if it was renamed, by the unique field of
+// the struct whose type prints as typeString.
+func (c *Ctx) FieldT(st *types.Named, name, typeString string) *types.Var {
+	if st == nil {
+		return nil
+	}
+	s, ok := st.Underlying().(*types.Struct)
+	if !ok {
+		return nil
+	}
+	for i := 0; i < s.NumFields(); i++ {
+		if s.Field(i).Name() == name && (typeString == "" || typeStr(s.Field(i).Type(), st.Obj().Pkg()) == typeString) {
+			return s.Field(i)
+		}
+	}
+	var found *types.Var
+	for i := 0; i < s.NumFields(); i++ {
+		if typeString != "" && typeStr(s.Field(i).Type(), st.Obj().Pkg()) == typeString {
+			if found != nil {
+				return nil // ambiguous: the caller must disambiguate by role
+			}
+			found = s.Field(i)
+		}
+	}
+	return found
+}
+
+// FieldsOfType lists the fields of st whose type prints as typeString.
+func (c *Ctx) FieldsOfType(st *types.Named, typeString string) []*types.Var {
+	var out []*types.Var
+	if st == nil {
+		return nil
+	}
+	s, ok := st.Underlying().(*types.Struct)
+	if !ok {
+		return nil
+	}
+	for i := 0; i < s.NumFields(); i++ {
+		if typeStr(s.Field(i).Type(), st.Obj().Pkg()) == typeString {
+			out = append(out, s.Field(i))
+		}
+	}
+	return out
+}
+
+// MethodsOf lists the source methods (value and pointer receiver) declared on
+// the named type.
+func (c *Ctx) MethodsOf(n *types.Named) []*ssa.Function {
+	var out []*ssa.Function
+	if n == nil {
+		return nil
+	}
+	seen := map[*ssa.Function]bool{}
+	for _, t := range []types.Type{n, types.NewPointer(n)} {
+		ms := c.Prog.MethodSets.MethodSet(t)
+		for i := 0; i < ms.Len(); i++ {
+			sel := ms.At(i)
+			if len(sel.Index()) != 1 {
+				continue
+			}
+			if f := c.Prog.MethodValue(sel); f != nil && !seen[f] && len(f.Blocks) > 0 && f.Synthetic == "" {
+				seen[f] = true
+				out = append(out, f)
+			}
+		}
+	}
+	sort.Slice(out, func(i, j int) bool { return out[i].Name() < out[j].Name() })
+	return out
+}
+
+// MethodLike resolves a method by name; if renamed, by the unique method of
+// the type satisfying role.
+func (c *Ctx) MethodLike(n *types.Named, name string, role func(*ssa.Function) bool) *ssa.Function {
+	if n == nil {
+		return nil
+	}
+	ms := c.MethodsOf(n)
+	for _, f := range ms {
+		if f.Name() == name {
+			return f
+		}
+	}
+	if role == nil {
+		return nil
+	}
+	var found *ssa.Function
+	for _, f := range ms {
+		if role(f) {
+			if found != nil {
+				return nil
+			}
+			found = f
+		}
+	}
+	return found
+}
+
+// OwnerName renders the owner of a field of named type n the way LockClass does.
+func OwnerName(n *types.Named) string {
+	pkg := ""
+	if n.Obj().Pkg() != nil {
+		pkg = strings.TrimPrefix(strings.TrimPrefix(n.Obj().Pkg().Path(), Module), "/")
+	}
+	return pkg + "." + n.Obj().Name()
+}
